@@ -68,6 +68,7 @@ class SimRemoteFS(MemoryFileSystem):
         self.stats = {"put": 0, "get": 0}
         self.read_rng = None
         self.short_read_rng = None
+        self.non_atomic = False
         # optional durable backing directory (outside the world, written with
         # the real os functions, atomically): lets the remote survive the
         # death of the process that talks to it (E8)
@@ -109,6 +110,14 @@ class SimRemoteFS(MemoryFileSystem):
     # -- writes -----------------------------------------------------------
     def _commit(self, to_info, data):
         self._pt("r_put", to_info)
+        if self.non_atomic:
+            # a remote without temp+rename: a failure part-way leaves a truncated
+            # object under the final name (only used where the property survives it)
+            try:
+                self._pt("r_put_mid", to_info)
+            except BaseException:
+                self.fs.pipe_file(to_info, data[: len(data) // 2])
+                raise
         parent = self.parent(to_info)
         if parent and not self.fs.exists(parent):
             self.fs.makedirs(parent, exist_ok=True)
